@@ -65,7 +65,7 @@ def gen_in(rng, tier):
                 k += 1
                 if not thorough and bf not in (F_DEC, F_OCT, F_HEX, 0) and k % 7: continue
                 combos = [(ws, sg, sk) for ws in WS for sg in SIGNS for sk in (0, 1)] if thorough else \
-                         [(WS[k % 4] if k % 3 else "", SIGNS[(k // 2) % 3], 0 if k % 5 == 0 else 1), ("", SIGNS[k % 3], 1)]
+                         [(WS[k % 4] if k % 3 else "", SIGNS[(k // 2) % 3], 0 if k % 5 == 0 else 1)] + ([("", SIGNS[k % 3], 1)] if k % 2 else [])
                 for ws, sg, sk in combos:
                     text = ws + sg + body + delim
                     fl = bf | (F_SKIPWS if sk else 0)
